@@ -25,15 +25,19 @@ Fixpoint zipw {A} (f : Q -> Q -> A) (x y : vec) : list A :=
   | _, _ => []
   end.
 
-Definition dot (x y : vec) : Q := qsum (zipw Qmult x y).
+(* sums are kept in lowest terms (Qred q == q): without it the denominators of a 64-term sum multiply up and
+   vm_compute on binary positives becomes infeasible; Proofs/Metrics.v shows qsumr l == qsum l *)
+Definition qsumr (l : list Q) : Q := fold_right (fun x acc => Qred (x + acc)) 0%Q l.
+
+Definition dot (x y : vec) : Q := qsumr (zipw Qmult x y).
 
 Definition nz (q : Q) : bool := negb (Qeq_bool q 0).
 Definition b01 (b : bool) : Q := if b then 1%Q else 0%Q.
 
 (* number of positions set in both / in either / in one vector *)
-Definition n_and (x y : vec) : Q := qsum (zipw (fun a b => b01 (nz a && nz b)) x y).
-Definition n_or (x y : vec) : Q := qsum (zipw (fun a b => b01 (nz a || nz b)) x y).
-Definition n_on (x : vec) : Q := qsum (map (fun a => b01 (nz a)) x).
+Definition n_and (x y : vec) : Q := qsumr (zipw (fun a b => b01 (nz a && nz b)) x y).
+Definition n_or (x y : vec) : Q := qsumr (zipw (fun a b => b01 (nz a || nz b)) x y).
+Definition n_on (x : vec) : Q := qsumr (map (fun a => b01 (nz a)) x).
 
 (* n / d with the convention of the property: a zero denominator scores 0 *)
 Definition sdiv (n d : Q) : Q := if Qeq_bool d 0 then 0%Q else (n / d)%Q.
@@ -43,8 +47,8 @@ Definition tanimoto_def (x y : vec) : Q := sdiv (n_and x y) (n_or x y).
 Definition dice_def (x y : vec) : Q := sdiv (2 * n_and x y) (n_on x + n_on y).
 
 (* Soergel similarity: 1 - sum|x-y| / sum max(x,y) *)
-Definition sum_absdiff (x y : vec) : Q := qsum (zipw (fun a b => Qabs (a - b)) x y).
-Definition sum_max (x y : vec) : Q := qsum (zipw Qmax x y).
+Definition sum_absdiff (x y : vec) : Q := qsumr (zipw (fun a b => Qabs (a - b)) x y).
+Definition sum_max (x y : vec) : Q := qsumr (zipw Qmax x y).
 Definition soergel_def (x y : vec) : Q :=
   if Qeq_bool (sum_max x y) 0 then 0%Q else (1 - sum_absdiff x y / sum_max x y)%Q.
 
@@ -59,7 +63,7 @@ Definition cosine_def (x y : vec) : rooted := mkr (dot x y) (dot x x * dot y y).
 
 (* Pearson = sum (x-mx)(y-my) / sqrt(sum (x-mx)^2 * sum (y-my)^2) *)
 Definition qlen {A} (l : list A) : Q := inject_Z (Z.of_nat (length l)).
-Definition mean (x : vec) : Q := (qsum x / qlen x)%Q.
+Definition mean (x : vec) : Q := (qsumr x / qlen x)%Q.
 Definition center (x : vec) : vec := map (fun v => (v - mean x)%Q) x.
 Definition pearson_def (x y : vec) : rooted :=
   let cx := center x in let cy := center y in mkr (dot cx cy) (dot cx cx * dot cy cy).
@@ -82,19 +86,19 @@ Definition fp_dice (a b : fp) : Q :=
 Definition diff_keys (a b : fp) : list Z := zunion (ckeys (counts_of a)) (ckeys (counts_of b)).
 
 Definition fp_soergel (a b : fp) : Q :=
-  if negb (is_count_like a && is_count_like b) then fp_tanimoto a b
+  if negb (is_count_like a || is_count_like b) then fp_tanimoto a b
   else
     let ks := diff_keys a b in
     match ks with
     | [] => 0%Q
     | _ =>
-      let sad := qsum (map (fun k => Qabs (cget (counts_of a) k - cget (counts_of b) k)) ks) in
-      let smax := qsum (map (fun k => Qmax (get_count a k) (get_count b k)) ks) in
+      let sad := qsumr (map (fun k => Qabs (cget (counts_of a) k - cget (counts_of b) k)) ks) in
+      let smax := qsumr (map (fun k => Qmax (get_count a k) (get_count b k)) ks) in
       if Qeq_bool smax 0 then 0%Q else (1 - sad / smax)%Q
     end.
 
-Definition fp_dot (a b : fp) : Q := qsum (map (fun kv => (snd kv * get_count b (fst kv))%Q) (counts_of a)).
-Definition fp_sumsq (a : fp) : Q := qsum (map (fun kv => (snd kv * snd kv)%Q) (counts_of a)).
+Definition fp_dot (a b : fp) : Q := qsumr (map (fun kv => (snd kv * get_count b (fst kv))%Q) (counts_of a)).
+Definition fp_sumsq (a : fp) : Q := qsumr (map (fun kv => (snd kv * snd kv)%Q) (counts_of a)).
 
 Definition fp_cosine (a b : fp) : rooted :=
   let n2 := (fp_sumsq a * fp_sumsq b)%Q in
@@ -104,14 +108,14 @@ Definition fp_cosine (a b : fp) : rooted :=
 Definition fp_mean (a : fp) : Q :=
   match fkind a with
   | KBit => (qlen (fidx a) / inject_Z (fbits a))%Q
-  | _ => (qsum (map snd (fcnt a)) / inject_Z (fbits a))%Q
+  | _ => (qsumr (map snd (fcnt a)) / inject_Z (fbits a))%Q
   end.
-(* the square of std() *)
+(* the square of std(); CountFingerprint.std clamps the variance at 0 before the root *)
 Definition fp_var (a : fp) : Q :=
   let m := fp_mean a in
   match fkind a with
   | KBit => (m * (1 - m))%Q
-  | _ => (qsum (map (fun kv => (snd kv * snd kv)%Q) (fcnt a)) / inject_Z (fbits a) - m * m)%Q
+  | _ => Qmax (qsumr (map (fun kv => (snd kv * snd kv)%Q) (fcnt a)) / inject_Z (fbits a) - m * m)%Q 0%Q
   end.
 
 Definition fp_pearson (a b : fp) : rooted :=
@@ -131,8 +135,8 @@ Definition fdiv (n d : Q) : Q :=
   else (n / d)%Q.
 
 (* _get_bitcount_arrays: the "bit counts" are row sums of the float array, XYbits the dot products *)
-Definition arr_tanimoto (x y : vec) : Q := fdiv (dot x y) (qsum x + qsum y - dot x y).
-Definition arr_dice (x y : vec) : Q := fdiv (2 * dot x y) (qsum x + qsum y).
+Definition arr_tanimoto (x y : vec) : Q := fdiv (dot x y) (qsumr x + qsumr y - dot x y).
+Definition arr_dice (x y : vec) : Q := fdiv (2 * dot x y) (qsumr x + qsumr y).
 
 (* nan_to_num(1 - cdist(X, Y, "cosine")) *)
 Definition arr_cosine (x y : vec) : rooted :=
@@ -184,9 +188,10 @@ Definition zrange (n : Z) : list Z := zrange_from 0 (Z.to_nat n).
 
 Definition expand (n : Z) (r : row) : vec := map (rget r) (zrange n).
 
-Definition rsum (r : row) : Q := qsum (map snd r).                   (* np.sum(X, axis=1) *)
-Definition rdot (r s : row) : Q := qsum (map (fun kv => (snd kv * rget s (fst kv))%Q) r).   (* (X * Y.T) *)
-Definition rsumsq (r : row) : Q := qsum (map (fun kv => (snd kv * snd kv)%Q) r).  (* scipy.sparse.linalg.norm ^2 *)
+Definition rsum (r : row) : Q := qsumr (map snd r).                   (* np.sum(X, axis=1) *)
+Definition rdot (r s : row) : Q := qsumr (map (fun kv => (snd kv * rget s (fst kv))%Q) r).   (* (X * Y.T) *)
+(* scipy.sparse.linalg.norm(X, axis=1) ^ 2: duplicates are summed before squaring, i.e. sum_i (entry i)^2 = r . r *)
+Definition rsumsq (r : row) : Q := rdot r r.
 
 Definition sp_tanimoto (r s : row) : Q := fdiv (rdot r s) (rsum r + rsum s - rdot r s).
 Definition sp_dice (r s : row) : Q := fdiv (2 * rdot r s) (rsum r + rsum s).
@@ -207,13 +212,10 @@ Definition sp_pearson (n : Z) (r s : row) : rooted :=
     let d2 := ((dot cx cx / n1) * (dot cy cy / n1))%Q in
     if Qeq_bool d2 0 then rzero else mkr (dot cx cy / n1) d2.
 
-(* X.sorted_indices(): per-row sort by column index (stable insertion sort) *)
-Fixpoint rinsert (e : Z * Q) (l : row) : row :=
-  match l with
-  | [] => [e]
-  | f :: t => if fst e <? fst f then e :: l else f :: rinsert e t
-  end.
-Definition rsort (r : row) : row := fold_right rinsert [] r.
+(* X.sum_duplicates() on a private copy (done when the matrix is not in canonical format; the identity on a
+   canonical one): per row, the distinct column indices in increasing order, each with the sum of its entries.
+   Explicit zeros (stored or arising from the sum) stay. *)
+Definition rcanon (r : row) : row := map (fun k => (k, rget r k)) (usort (map fst r)).
 
 (* the two tail loops *)
 Fixpoint stail (r : row) (sad smax : Q) : Q * Q :=
@@ -240,7 +242,7 @@ Fixpoint smerge (rx : row) : row -> Q -> Q -> Q * Q :=
       end
     end.
 
-(* one entry of S: empty-row short-cuts, then merge on the rows as given (sorted by soergel() beforehand) *)
+(* one entry of S: empty-row short-cuts, then merge on the rows as given (canonicalised by soergel() beforehand) *)
 Definition sp_soergel_rows (rx ry : row) : Q :=
   match rx, ry with
   | [], _ => 0%Q
@@ -248,8 +250,8 @@ Definition sp_soergel_rows (rx ry : row) : Q :=
   | _, _ => soergel_finish (smerge rx ry 0 0)
   end.
 
-(* array_metrics.soergel on CSR input: sort the indices of both, then the kernel *)
-Definition sp_soergel (rx ry : row) : Q := sp_soergel_rows (rsort rx) (rsort ry).
+(* array_metrics.soergel on CSR input: canonicalise both, then the kernel *)
+Definition sp_soergel (rx ry : row) : Q := sp_soergel_rows (rcanon rx) (rcanon ry).
 
 (* ================================================================================================ *)
 (* Part 3. Calling conventions                                                                      *)
